@@ -496,6 +496,10 @@ func keyScratchSize(c *Ctx, r *Report, rule string) {
 			continue
 		}
 		r.fn(name)
+		if g := calleeWith(fn, func(f *ssa.Function) bool { return len(callsIn(f, "packKeyWire")) > 0 }); g != nil && g != fn {
+			fn = g // the packing moved into a helper
+			r.fn(fnDisplay(g))
+		}
 		n := 0
 		for _, ci := range callsIn(fn, "packKeyWire") {
 			for _, a := range ci.Common().Args {
